@@ -1,7 +1,10 @@
 SPECIFICATION Spec
-CONSTANTS Variant = "ok"  Slots = 3  Pairs = TRUE
+CONSTANTS Variant = "ok"  Slots = 3  Guard = "or"  Pairs = TRUE
   Ws <- TW  Gs <- TG  Des <- TDe  Wps <- TWp  CpA <- TA  CpOm <- TOm  CpGa <- TGa  CpPh <- TPh  Xs <- TX
 INVARIANT TypeOK
+INVARIANT AcceptsWithinLimit
+INVARIANT AcceptedJury
+INVARIANT RejectsBeyond
 INVARIANT JuryOK
 INVARIANT RootsOK
 INVARIANT StrictWhenDamped
